@@ -264,4 +264,48 @@ theorem assemble_authorize (f : FfiPolicySet) (s : ApiPolicySet) (h : assemble f
   rw [this, ← h0]
   exact ⟨rfl, rfl⟩
 
+/-! ### non-vacuity: two static policies in the map form (one Cedar text, one EST JSON), one template, two links -/
+
+def demoBody : TemplateBody :=
+  { id := "", annotations := [], effect := .permit, principalC := .any, actionC := .any, resourceC := .any, nonScope := none }
+def demoTemplate : Template := { body := { demoBody with principalC := .eq .slot }, slots := [.principal] }
+def demoVals : SlotVals := { principal := some ⟨"User", "alice"⟩ }
+/-- the second link's id is a parameter: "l2" is fresh, "p1" collides with a static policy -/
+def demoFfi (secondLinkId : String) : FfiPolicySet :=
+  { staticPolicies := .map [("p1", ⟨.cedar, some demoBody⟩), ("p2", ⟨.json, some { demoBody with effect := .forbid }⟩)],
+    templates := [("t", ⟨.cedar, some demoTemplate⟩)],
+    templateLinks := [⟨"t", "l1", some demoVals⟩, ⟨"t", secondLinkId, some demoVals⟩] }
+
+/-- success: ids as assigned, in the order of the history; the history is the expected five calls -/
+example :
+    (match assemble (demoFfi "l2") with
+     | .ok s => some (s.policies.keys, s.templates.keys, s.ast.links.keys, s.ast.templates.keys)
+     | .error _ => none) = some (["p1", "p2", "l1", "l2"], ["t"], ["p1", "p2", "l1", "l2"], ["p1", "p2", "t"]) ∧
+    (apiHistory (demoFfi "l2")).length = 5 ∧ (demoFfi "l2").TemplatesHaveSlots := by
+  refine ⟨by decide +kernel, by decide +kernel, ?_⟩
+  intro e t he ht
+  simp only [demoFfi, List.mem_singleton] at he
+  subst he
+  cases ht
+  simp [demoTemplate]
+/-- a duplicate link id: exactly one error, `link`'s `PolicyIdConflict`; the other four calls succeeded -/
+example : (match assemble (demoFfi "p1") with | .ok _ => none | .error es => some es) = some [.link .idConflict] := by
+  decide +kernel
+/-- the list form gives every Cedar-text element the id "policy0": two elements collide in `from_policies`; the links
+then fail against the EMPTY set's successor (template "t" is added, static part dropped) — here they succeed -/
+example : (match assemble { demoFfi "l2" with staticPolicies := .set [⟨.cedar, some demoBody⟩, ⟨.cedar, some demoBody⟩] } with
+           | .ok _ => none | .error es => some es) = some [.fromPolicies .alreadyDefined] := by
+  decide +kernel
+/-- a concatenated text: ids by position; a template among the statements is refused -/
+example :
+    (match assemble { demoFfi "l2" with staticPolicies := .concatenated (some [.static demoBody, .static demoBody]) } with
+     | .ok s => some s.ast.links.keys | .error _ => none) = some ["policy0", "policy1", "l1", "l2"] ∧
+    (match assemble { demoFfi "l2" with staticPolicies := .concatenated (some [.static demoBody, .template demoTemplate]) } with
+     | .ok _ => none | .error es => some es) = some [.templateInStatic] := by
+  decide +kernel
+/-- a template document that does not parse and a link to it: both errors, in loop order -/
+example : (match assemble { demoFfi "l2" with templates := [("t", ⟨.cedar, none⟩)] } with | .ok _ => none | .error es => some es)
+    = some [.parseTemplate "t", .link .noSuchTemplate, .link .noSuchTemplate] := by
+  decide +kernel
+
 end Cedar.C19
